@@ -71,6 +71,19 @@ fn expressions(tier: Tier, seed: u64) -> (Vec<(String, &'static str)>, Vec<serde
         }
     }
     fams.push(json!({"family": "depth 2 over item pairs: [X op Y], [^X op Y], [X op [^Y]], [X[^Y]], [^[X][^Y]] for op in &&,--,~~", "expressions": e.len() - n0, "exhaustive": true}));
+    // nesting of negations: a nested bracket as the only item, double and triple negation
+    let n0 = e.len();
+    for x in ITEMS {
+        for sh in ["[[{x}]]", "[[^{x}]]", "[^[{x}]]", "[^[^{x}]]", "[^[^[^{x}]]]", "[[^[^{x}]]]", "[^[[^{x}]]]"] {
+            e.push((sh.replace("{x}", x), "negation-nesting"));
+        }
+        for y in ITEMS {
+            for sh in ["[^[^{x}]{y}]", "[^[^{x}][^{y}]]", "[[^{x}]&&[^{y}]]", "[^[^{x}]&&[^{y}]]", "[^[^{x}]--{y}]", "[^[^{x}]~~[^{y}]]", "[[^{x}{y}]]", "[^[^{x}{y}]]", "[{y}[^[^{x}]]]", "[^{y}[^[^{x}]]]"] {
+                e.push((sh.replace("{x}", x).replace("{y}", y), "negation-nesting"));
+            }
+        }
+    }
+    fams.push(json!({"family": "negation nesting: [[X]], [[^X]], [^[X]], [^[^X]], [^[^[^X]]], ... and two-item variants with a doubly negated member", "expressions": e.len() - n0, "exhaustive": true}));
     // named atoms in contexts
     let n0 = e.len();
     for (pos, neg) in named_atoms() {
@@ -292,8 +305,54 @@ pub fn run(tier: Tier) -> ! {
             acc.samples.push(|| json!({"expression": e, "family": fam, "members": cnt}));
         }
     });
+    // 3. context independence: two classes in ONE scanner (the class registry is shared): for
+    // every scalar the token type is 0 if X contains it, else 1 if Y contains it, else no token.
+    let menu = refsem::families::class_menu();
+    let mut menu_sets: Vec<Option<CharSet>> = vec![];
+    for m in &menu {
+        menu_sets.push(tabulate_pattern(m).ok());
+    }
+    let pairs: Vec<(usize, usize)> = (0..menu.len()).flat_map(|x| (0..menu.len()).map(move |y| (x, y))).collect();
+    let pair_accs = par_for(pairs.len(), 1, || Acc { samples: Samples::new(1), ..Default::default() }, |acc, i| {
+        let (xi, yi) = pairs[i];
+        let (Some(xs), Some(ys)) = (&menu_sets[xi], &menu_sets[yi]) else { return };
+        if start.elapsed().as_secs_f64() > cap_s {
+            acc.skipped_by_cap += 1;
+            return;
+        }
+        let cfg = bridge::Cfg::single(vec![bridge::CPat::new(menu[xi], 0), bridge::CPat::new(menu[yi], 1)]);
+        let all = bridge::all_scalars_string();
+        let r = bridge::catch(|| {
+            let sc = cfg.build_uncached().map_err(|e| e.to_string())?;
+            let (mut g0, mut g1) = (CharSet::empty(), CharSet::empty());
+            for m in sc.find_iter(all) {
+                let c = all[m.start()..m.end()].chars().next().unwrap();
+                if m.end() - m.start() != c.len_utf8() {
+                    return Err(format!("token {}..{} is not one character", m.start(), m.end()));
+                }
+                if m.token_type() == 0 { g0.insert(c) } else { g1.insert(c) }
+            }
+            Ok((g0, g1))
+        });
+        acc.checked += 1;
+        match r {
+            Ok(Ok((g0, g1))) => {
+                let want1 = ys.zip(xs, |y, x| y & !x);
+                let bad = g0.first_difference(xs).map(|c| (c, 0)).or_else(|| g1.first_difference(&want1).map(|c| (c, 1)));
+                if let Some((c, which)) = bad {
+                    acc.viol.add("", || Violation {
+                        key: String::new(),
+                        summary: format!("classes {} and {} in one scanner: {:?} (U+{:04X}) is {}reported for pattern #{which}, but used alone the class {} it", menu[xi], menu[yi], c, c as u32, if (if which == 0 { &g0 } else { &g1 }).contains(c) { "" } else { "not " }, if (if which == 0 { xs } else { &want1 }).contains(c) { "contains" } else { "does not contain" }),
+                        replay: json!({"patterns": [menu[xi], menu[yi]], "char": c.to_string(), "codepoint": c as u32, "how": "build both patterns (token types 0, 1) in one mode, scan the string of all scalars"}),
+                    });
+                }
+                acc.nontrivial += 1;
+            }
+            Ok(Err(e)) | Err(e) => acc.viol.add("", || Violation { key: String::new(), summary: format!("classes {} and {} in one scanner: {e}", menu[xi], menu[yi]), replay: json!({"patterns": [menu[xi], menu[yi]], "error": e}) }),
+        }
+    });
     let mut total = Acc { samples: Samples::new(8), ..Default::default() };
-    for a in accs {
+    for a in accs.into_iter().chain(pair_accs) {
         total.checked += a.checked;
         total.nontrivial += a.nontrivial;
         total.rejected.extend(a.rejected);
@@ -320,6 +379,8 @@ pub fn run(tier: Tier) -> ! {
     cov.insert("named_atoms_tabulated".into(), json!(tables.tables.len()));
     cov.insert("named_atoms_that_do_not_build".into(), json!(unsupported_atoms.iter().map(|(k, e)| format!("{k}: {e}")).collect::<Vec<_>>()));
     cov.insert("oracle_pointwise_crosschecks".into(), json!(total.pointwise_crosschecks));
+    let mut fams = fams;
+    fams.push(json!({"family": "context independence: every ordered pair of the class menu as two patterns of one scanner, all scalars", "menu": menu, "pairs": pairs.len(), "exhaustive": true}));
     cov.insert("families".into(), json!(fams));
     cov.insert("disagreeing_expressions".into(), json!(n_dis));
     run.finish(
